@@ -74,7 +74,8 @@ Inductive expr :=
 | Function (fname : str) (operands : list expr)
 | BinaryOp (op : binop) (l r : expr)
 | UnaryOp (op : unop) (e : expr)
-| BoolOp (op : boolop) (args : list expr).
+| BoolOp (op : boolop) (args : list expr)
+| Placeholder (name : str).   (* %s has the empty name, %(x)s the name x *)
 
 (* CLOSE is None, True (no date) or a date *)
 Inductive closev := CloseTrue | CloseOn (d : Z).
@@ -609,6 +610,7 @@ Fixpoint o_expr (e : expr) : out :=
   | BinaryOp op l r => OL [ON 3; o_binop op; o_expr l; o_expr r]
   | UnaryOp op x => OL [ON 4; o_unop op; o_expr x]
   | BoolOp op args => OL [ON 5; o_boolop op; OL (map o_expr args)]
+  | Placeholder n => OL [ON 6; o_str n]
   end.
 
 Definition o_close (c : closev) : out :=
